@@ -31,6 +31,7 @@ func stepAlphabet(depth int) []seqx.Step {
 		{Op: "Level", Level: zerolog.TraceLevel},
 		{Op: "Output"},
 		{Op: "Sample"},
+		{Op: "SampleNil"},
 		{Op: "UpdateContext", Fields: []seqx.Field{{M: "Str", Key: k("u"), Val: "w"}}},
 		{Op: "Stack"},
 		{Op: "WithEmpty"},
